@@ -71,6 +71,7 @@ func checkMayRun(ms []*vcase.Model, ans *vrun.Answer) (msg string, forbidden int
 func TestC04(t *testing.T) {
 	p := detProfile()
 	p.Name = "deterministic-mayrun"
+	p.OutputsWaitAll = true
 	p.Outcomes = []string{"success", "success", "error", "alt", "crash", "bad_output"}
 	runProperty(t, "C04",
 		func(rt *rapid.T) *vcase.Case { return vcase.GenCase(rt, p, "C04") },
